@@ -4782,6 +4782,16 @@ _RESERVED_HELPER_NAMES = frozenset(
 )
 
 
+_DEVICE_NAME_SETS = {
+    "Led": "led_names",
+    "RGBLed": "rgb_led_names",
+    "Servo": "servo_names",
+    "DCMotor": "dc_motor_names",
+    "Buzzer": "buzzer_names",
+    "LCD": "lcd_names",
+}
+
+
 def _reject_reserved_names(tree: ast.AST) -> None:
     for node in ast.walk(tree):
         if isinstance(node, ast.Name) and not isinstance(node.ctx, ast.Load):
@@ -4872,6 +4882,23 @@ def _parse_program(src: str) -> Program:
         "potentiometer_pins": {},
     }
     ctx["vars"]["_helpers"] = ctx["helpers"]
+
+    # A helper defined above ``sv = Servo(9)`` may call ``sv.write(..)``: which kind
+    # of device a name stands for is known before any helper body is analysed
+    # (otherwise the call would be matched by the first pattern with that method
+    # name - ``.write`` is also the serial monitor's, ``.blink`` also the Led's).
+    for node in ast.walk(tree):
+        if (
+            isinstance(node, ast.Assign)
+            and len(node.targets) == 1
+            and isinstance(node.targets[0], ast.Name)
+            and isinstance(node.value, ast.Call)
+            and isinstance(node.value.func, ast.Name)
+            and node.value.func.id in _DEVICE_NAME_SETS
+        ):
+            ctx.setdefault(_DEVICE_NAME_SETS[node.value.func.id], set()).add(
+                node.targets[0].id
+            )
 
     # A helper may call a helper that is defined further down.  Make the source of
     # every helper known before any body is analysed, so that the variant the call
